@@ -46,6 +46,7 @@ struct Episode<'a> {
     n_droppable_stored: usize,
     n_vec: usize,
     n_move: usize,
+    getters_seen: std::collections::BTreeSet<(usize, usize)>,
 }
 
 fn prop_of(op: &Op) -> &'static str {
@@ -311,6 +312,7 @@ impl<'a> Episode<'a> {
                 };
                 self.check_obs(slot, variant, k, o, id, prop, what, report);
                 self.check_addr(slot, variant, k, o, report);
+                self.getters_seen.insert((variant, k));
                 if let FState::Val { serials, .. } = &mut self.slots[slot].as_mut().unwrap().fields[k] {
                     *serials = o.serials.clone();
                 }
@@ -500,6 +502,7 @@ pub fn run_module(drv: &mut dyn Drv, args: &RunArgs, report: &mut Report) {
         return;
     }
     static_checks(&meta, report);
+    report.functions_total.insert(meta.module.to_owned(), function_total(&meta) as u64);
     let mut e = args.shard;
     while e < args.episodes {
         run_episode(drv, &meta, args, e, report);
@@ -533,6 +536,7 @@ fn run_episode(drv: &mut dyn Drv, meta: &Meta, args: &RunArgs, episode: u64, rep
         n_droppable_stored: 0,
         n_vec: 0,
         n_move: 0,
+        getters_seen: Default::default(),
     };
     report.count("episodes", 1);
     let nops = rng.range(1, args.max_ops.max(1));
@@ -1161,6 +1165,12 @@ fn run_episode(drv: &mut dyn Drv, meta: &Meta, args: &RunArgs, episode: u64, rep
     } else {
         let _ = hook_events();
         report.count("episodes_aborted", 1);
+    }
+    for (v, k) in std::mem::take(&mut ep.getters_seen) {
+        let name = format!("{}::v{}::{}", meta.module, v, meta.variants[v].fields[k].name);
+        if !report.functions_covered.contains(&name) {
+            report.functions_covered.insert(name);
+        }
     }
     // non-triviality
     // (formatting is very slow under Miri: episodes are told apart by their coordinates there)
